@@ -145,8 +145,10 @@ EVENTS = {
 }
 
 
-def collect():
-    """-> list of (coq name, python origin, pattern string, flags) from the imported package"""
+def collect(strict=True):
+    """-> list of (coq name, python origin, pattern string, flags) from the imported package.
+    strict=False (used only by the failing-input search after the translator refused): do not insist
+    that the live handler selects list_drf.RE_X for the flag combination that should select it."""
     import os
     from digital_rf import list_drf, watchdog_drf
     if os.sep != "/":
@@ -157,11 +159,13 @@ def collect():
         out.append(("l" + n.lower(), "list_drf." + n, p.pattern, p.flags))
     for n, kw in EVENTS.items():
         h = watchdog_drf.DigitalRFEventHandler(**kw)
-        if len(h.regexes) != 1:
+        if strict and len(h.regexes) != 1:
             raise Unsupported("handler built %d regexes for %r" % (len(h.regexes), kw))
         p = h.regexes[0]
         if p.pattern != getattr(list_drf, n):
-            raise Unsupported("handler flag combination %r selects %r, not list_drf.%s" % (kw, p.pattern, n))
+            if strict:
+                raise Unsupported("handler flag combination %r selects %r, not list_drf.%s" % (kw, p.pattern, n))
+            p = re.compile(getattr(list_drf, n), p.flags)
         out.append(("e_" + n.lower(), "DigitalRFEventHandler(%s).regexes[0] == list_drf.%s, flags %s" % (
             ", ".join("%s=%s" % kv for kv in sorted(kw.items())), n, re.RegexFlag(p.flags)), p.pattern, p.flags))
     return out
